@@ -406,3 +406,43 @@ package implementation
 //@   ensures[max-follows-for-non-mintable] err == nil ==> stg(context).tokenMax == store(old(stg(context).tokenMax), sendBlock.TokenStandard, old(stg(context).tokenMax)[sendBlock.TokenStandard] - ite(old(stg(context).tokenMintable)[sendBlock.TokenStandard], 0, val(sendBlock.Amount)))
 //@   ensures[nothing-on-error] err != nil ==> stg(context).tokenTotal == old(stg(context).tokenTotal) && stg(context).tokenMax == old(stg(context).tokenMax) && context.balance == old(context.balance)
 //@   modifies sendBlock.Data, MF:common/db.DB.token*, context.balance
+
+// ======================================================================================================================
+// Property C10, bridge unwrap: a signed unwrap request is registered at most once, under its own (transaction hash, log
+// index); it is redeemed at most once, not before its delay, not when revoked, and pays the recorded amount to the recorded
+// recipient (for a token the bridge owns: through a mint call carrying them).
+// Helpers that only read (bridge administration state, network tables, signature check): ASSUMED frames.
+//@ func CanPerformAction(context)
+//@   trusted
+//@   modifies nothing
+//@ func CheckNetworkAndPairExist(context, networkClass, chainId, ztsOrToken) -> (pair, err)
+//@   trusted
+//@   modifies nothing
+//@ func GetUnwrapTokenRequestMessage(param)
+//@   trusted
+//@   modifies nothing
+//@ func CheckECDSASignature(message, pubKeyStr, signatureStr)
+//@   trusted
+//@   modifies nothing
+
+//@ func UnwrapTokenMethod.ReceiveBlock(p, context, sendBlock) -> (descendants, err)
+//@   requires p != nil && sendBlock != nil && sendBlock.Amount != nil
+//@   ensures[no-payment] len(descendants) == 0
+//@   ensures-local[registered-once-under-its-own-key] err == nil ==> !old(stg(context).unwrapHas)[param.TransactionHash][param.LogIndex] && stg(context).unwrapHas[param.TransactionHash][param.LogIndex] && stg(context).unwrapRedeemed[param.TransactionHash][param.LogIndex] == 0 && stg(context).unwrapRevoked[param.TransactionHash][param.LogIndex] == 0
+//@   ensures-local[records-what-was-signed] err == nil ==> param.Amount != nil && stg(context).unwrapAmt[param.TransactionHash][param.LogIndex] == val(param.Amount) && stg(context).unwrapTo[param.TransactionHash][param.LogIndex] == param.ToAddress && stg(context).unwrapReg[param.TransactionHash][param.LogIndex] == context.height
+//@   ensures-local[only-its-own-entry] err == nil ==> (forall t arr, l int :: (t != param.TransactionHash || l != param.LogIndex) ==> stg(context).unwrapRedeemed[t][l] == old(stg(context).unwrapRedeemed)[t][l] && stg(context).unwrapRevoked[t][l] == old(stg(context).unwrapRevoked)[t][l] && stg(context).unwrapHas[t][l] == old(stg(context).unwrapHas)[t][l])
+//@   ensures[nothing-on-error] err != nil ==> stg(context).unwrapHas == old(stg(context).unwrapHas) && stg(context).unwrapRedeemed == old(stg(context).unwrapRedeemed) && stg(context).unwrapRevoked == old(stg(context).unwrapRevoked)
+//@   modifies sendBlock.Data, MF:common/db.DB.unwrap*
+
+//@ func RedeemMethod.ReceiveBlock(p, context, sendBlock) -> (descendants, err)
+//@   requires p != nil && sendBlock != nil && sendBlock.Amount != nil
+//@   ensures-local[a-known-request-not-yet-redeemed-or-revoked] err == nil ==> old(stg(context).unwrapHas)[param.TransactionHash][param.LogIndex] && old(stg(context).unwrapRedeemed)[param.TransactionHash][param.LogIndex] == 0 && old(stg(context).unwrapRevoked)[param.TransactionHash][param.LogIndex] == 0
+//@   ensures-local[not-before-its-delay] err == nil ==> 0 <= foundIndex && foundIndex < len(network.TokenPairs) && (context.height + pow2(64) - old(stg(context).unwrapReg)[param.TransactionHash][param.LogIndex]) % pow2(64) >= network.TokenPairs[foundIndex].RedeemDelay
+//@   ensures-local[never-twice] err == nil ==> stg(context).unwrapRedeemed[param.TransactionHash][param.LogIndex] == 1
+//@   ensures-local[one-payment] err == nil ==> len(descendants) == 1 && descendants[0] != nil && descendants[0].Amount != nil && descendants[0].Address == types.BridgeContract
+//@   ensures-local[recorded-amount-to-recorded-recipient] err == nil && !network.TokenPairs[foundIndex].Owned ==> descendants[0].ToAddress == old(stg(context).unwrapTo)[param.TransactionHash][param.LogIndex] && val(descendants[0].Amount) == old(stg(context).unwrapAmt)[param.TransactionHash][param.LogIndex]
+//@   ensures-local[owned-token-is-minted-not-paid] err == nil && network.TokenPairs[foundIndex].Owned ==> descendants[0].ToAddress == types.TokenContract && val(descendants[0].Amount) == 0
+//@   modifies sendBlock.Data, MF:common/db.DB.unwrap*
+//@   loop 1
+//@     invariant 0 <= i && (foundIndex == -1 || (0 <= foundIndex && foundIndex < len(network.TokenPairs)))
+//@     invariant network != nil && request != nil && request.Amount != nil
